@@ -65,7 +65,7 @@ CHECKS = {
                 text="full product of tool arguments (content class x schema argument x profile x every flag/mode/format) for octave_validate, "
                      "octave_write, octave_eject, octave_compile_grammar and the CLI; invariants on every envelope: status present and one of the "
                      "documented values, VALIDATED only when a schema of that name exists (own directory scan) and no error-severity finding, "
-                     "UNVALIDATED otherwise, INVALID iff errors; schema life cycle: every event sequence of length <=4 (thorough 5) over {install v1, install v2, delete, go away, come back} against a (cwd, file) state model - after EVERY event validate and write must answer UNVALIDATED / VALIDATED / INVALID as the state says; schema files that are found but are not well-formed OCTAVE (unloadable names); an unknown META field; the canonical text of every VALIDATED answer is re-validated by a plain call; octave_write with mutations: the verdict must be the verdict of the written file; schema names that are proper prefixes of schema file names; a frontmatter-only schema",
+                     "UNVALIDATED otherwise, INVALID iff errors; schema life cycle: every event sequence of length <=4 (thorough 5) over {install v1, install v2, delete, go away, come back} against a (cwd, file) state model - after EVERY event validate and write must answer UNVALIDATED / VALIDATED / INVALID as the state says; schema files that are found but are not well-formed OCTAVE (unloadable names); an unknown META field; the canonical text of every VALIDATED answer is re-validated by a plain call; octave_write with mutations: the verdict must be the verdict of the written file; schema names that are proper prefixes of schema file names; a frontmatter-only schema; wave 5: explicit-state walk over the cache file of a frozen@sha256 reference (install / corrupt with same size and kept times / corrupt / delete / touch, sequences <=3-4) asking octave_write after every event; two requests (one INVALID, one VALIDATED) on ONE shared ValidateTool / WriteTool in two threads under every schedule with <=1 preemption at call granularity (sys.monitoring scheduler): each answer equals the answer of the request served alone",
                 note="LENIENT/ULTRA profiles downgrade by design; W_STRUCT salvage wraps are readable content (DESIGN.md §6)",
                 tech="exhaustive enumeration of the argument product; envelope invariants"),
     "C11": dict(level="exploration", engine=E1,
